@@ -79,9 +79,43 @@ MUTANTS = [
                (VM, "            handling_exception: false,\n        };", "            handling_exception: false,\n            tuple_memo: Vec::new(),\n        };"),
                (VM, "        let tuple = self.new_root_obj_tuple(elements);\n        self.discard(num_operands);",
                 "        let tuple = self.new_root_obj_tuple(elements);\n        self.tuple_memo.push(tuple.clone());\n        self.discard(num_operands);")]},
+    # ---- C02 ----------------------------------------------------------------------------------------
+    {'name': 'P1 string_find loses its arity check', 'prop': 'C02', 'expect': 'P1 / yarel::core::string_find / peek(2)',
+     'edits': [(CORE, "fn string_find(vm: &mut Vm, num_args: usize) -> Result<Value, Error> {\n    check_num_args(num_args, 2)?;\n", "fn string_find(vm: &mut Vm, num_args: usize) -> Result<Value, Error> {\n")]},
+    {'name': 'P1 arity check result ignored', 'prop': 'C02', 'expect': 'P1 / yarel::core::hash_map_insert',
+     'edits': [(CORE, "fn hash_map_insert(vm: &mut Vm, num_args: usize) -> Result<Value, Error> {\n    check_num_args(num_args, 2)?;", "fn hash_map_insert(vm: &mut Vm, num_args: usize) -> Result<Value, Error> {\n    let _ = check_num_args(num_args, 2);")]},
+    {'name': 'P1 arity checked against too small a count', 'prop': 'C02', 'expect': 'P1 / yarel::core::string_replace / peek(2)',
+     'edits': [(CORE, "fn string_replace(vm: &mut Vm, num_args: usize) -> Result<Value, Error> {\n    check_num_args(num_args, 2)?;", "fn string_replace(vm: &mut Vm, num_args: usize) -> Result<Value, Error> {\n    check_num_args(num_args, 1)?;")]},
+    {'name': 'P2 argument kind assumed with expect', 'prop': 'C02', 'expect': 'P2 / yarel::core::fiber_init / peek(0).try_as_obj_closure',
+     'edits': [(CORE, '''    let closure = vm.peek(0).try_as_obj_closure().ok_or_else(|| {
+        error!(
+            ErrorKind::TypeError,
+            "Expected a function but found '{}'.",
+            vm.peek(0)
+        )
+    })?;''', '''    let closure = vm.peek(0).try_as_obj_closure().expect("Expected a function.");''')]},
+    {'name': 'P3 vec borrowed mutably across string allocation', 'prop': 'C02', 'expect': 'P3 / yarel::core::string_split',
+     'edits': [(CORE, '''    for substr in string.as_str().split(delim.as_str()) {
+        let new_str = Value::ObjString(vm.new_gc_obj_string(substr));
+        splits.borrow_mut().elements.push(new_str);
+    }''', '''    let mut borrowed = splits.borrow_mut();
+    for substr in string.as_str().split(delim.as_str()) {
+        let new_str = Value::ObjString(vm.new_gc_obj_string(substr));
+        borrowed.elements.push(new_str);
+    }
+    drop(borrowed);''')]},
+    {'name': 'P5 Invoke arm removed from run', 'prop': 'C02', 'expect': 'P5 / Vm::run arms',
+     'edits': [(VM, "                byte if byte == OpCode::Invoke as u8 => self.invoke_impl()?,\n", "")]},
+    {'name': 'P5 get_class loses the ObjFiber arm (wildcard added)', 'prop': 'C02', 'expect': 'P5 / Vm::get_class arms',
+     'edits': [(VM, "            Value::ObjFiber(fiber) => fiber.borrow().class,\n            Value::None => self.class_store.nil_class(),", "            Value::None => self.class_store.nil_class(),\n            _ => unreachable!(),")]},
+    {'name': 'P6 new recursive walk over program data', 'prop': 'C02', 'expect': 'P6 / value::Value::depth',
+     'edits': [(VAL, "    pub fn try_into_bool(&self) -> Option<bool> {", "    pub fn depth(&self) -> usize {\n        match self {\n            Value::ObjTuple(t) => 1 + t.elements.iter().map(|v| v.depth()).max().unwrap_or(0),\n            _ => 0,\n        }\n    }\n\n    pub fn try_into_bool(&self) -> Option<bool> {"),
+               (CORE, "    Ok(Value::Number(tuple.elements.len() as f64))", "    Ok(Value::Number((tuple.elements.len() + Value::ObjTuple(tuple).depth() * 0) as f64))")]},
 ]
 
 BENIGN = [
+    {'name': 'extra safe unwrap in an opcode handler + reordered independent statements', 'prop': 'C02',
+     'edits': [(VM, "let top = self.peek(0);", "let top = Some(self.peek(0)).unwrap();")]},
     {'name': 'mark body split into a helper + match instead of if-let', 'prop': 'C01',
      'edits': [(OBJ, "        if let Some(u) = self.next.as_ref() {\n            u.mark();\n        }",
                 "        match self.next.as_ref() {\n            Some(u) => u.mark(),\n            None => {}\n        }")]},
